@@ -341,6 +341,7 @@ fn driver(k: usize, variants: &[Vec<Field>], has_clone: bool, has_serde: bool) -
         )
         .unwrap();
     }
+    writeln!(s, "    {{\"v\": 0, \"size\": std::mem::size_of::<RecordUninitialized<CAP>>(), \"align\": std::mem::align_of::<RecordUninitialized<CAP>>(), \"send\": true, \"sync\": true}},").unwrap();
     writeln!(s, "]) }}").unwrap();
     writeln!(s, "pub fn max_size() -> usize {{ MAX_SIZE }}").unwrap();
     writeln!(s, "pub fn run<const CAP: usize>(ops: &[Value]) {{").unwrap();
@@ -436,6 +437,20 @@ fn driver(k: usize, variants: &[Vec<Field>], has_clone: bool, has_serde: bool) -
                 }
                 writeln!(s, "            st.slots[s] = Rec::V{n}(Place::new(r, place)); }} }}").unwrap();
             }
+            // the README pipeline: a vector of records converted in place through the generated From
+            writeln!(s, "        (\"convert_vec\", {v}) => {{ if let Rec::V{v}(p) = std::mem::replace(&mut st.slots[s], Rec::None) {{").unwrap();
+            writeln!(s, "            let from = p.into_inner();").unwrap();
+            writeln!(s, "            let plus = UnpackedRecordIn{n} {{ {} }};", plus.iter().map(|f| mk(f)).collect::<Vec<_>>().join(", ")).unwrap();
+            writeln!(s, "            let cell = std::panic::AssertUnwindSafe(std::cell::RefCell::new(Some(plus))); let cell = &cell;").unwrap();
+            writeln!(s, "            let out = truc_runtime::convert::convert_vec_in_place::<CappedRecord{v}<CAP>, CappedRecord{n}<CAP>, _>(vec![from], |rec, _| truc_runtime::convert::VecElementConversionResult::Converted(CappedRecord{n}::<CAP>::from((rec, cell.borrow_mut().take().unwrap()))));").unwrap();
+            writeln!(s, "            let r = out.into_iter().next().unwrap();").unwrap();
+            for f in &minus {
+                writeln!(s, "            st.init[s].remove(&{});", f.fid).unwrap();
+            }
+            for f in &plus {
+                writeln!(s, "            st.init[s].insert({});", f.fid).unwrap();
+            }
+            writeln!(s, "            st.slots[s] = Rec::V{n}(Place::new(r, place)); }} }}").unwrap();
         }
         if has_clone {
             writeln!(s, "        (\"clone\", {v}) => {{ let c = if let Rec::V{v}(p) = &st.slots[s] {{ p.get().clone() }} else {{ unreachable!() }};").unwrap();
